@@ -176,7 +176,7 @@ func c17Run(cs *c17Case, r *gen.Rand) {
 					return
 				}
 				off := 0
-				for steps := 0; steps < 10000; steps++ {
+				for steps := 0; steps < 300; steps++ { // a listing that does not end is cut here
 					op := &fuseops.ReadDirOp{Inode: dir, Offset: fuseops.DirOffset(off), Dst: make([]byte, o.Buf)}
 					if err := f.ops.ReadDir(ctx, op); err != nil {
 						o.Err = "readdir: " + err.Error()
